@@ -17,10 +17,7 @@ Proof. unfold zlen. rewrite put_be_length. reflexivity. Qed.
 
 Lemma take_app n a r : length a = n -> take n (a ++ r) = Some (a, r).
 Proof.
-  intros H. unfold take. rewrite app_length.
-  destruct (Nat.ltb_spec (length a + length r) n); [lia|].
-  subst n. rewrite firstn_app, Nat.sub_diag, firstn_all, skipn_app, Nat.sub_diag, skipn_all. cbn [firstn skipn].
-  rewrite !app_nil_r. reflexivity.
+  intros <-. induction a as [|x a IH]; cbn [length take app]; [reflexivity|]. rewrite IH. reflexivity.
 Qed.
 Lemma take_all n a : length a = n -> take n a = Some (a, []).
 Proof. intros H. rewrite <- (app_nil_r a) at 1. apply take_app. exact H. Qed.
